@@ -257,6 +257,11 @@ for t in ("p8", "p16"):
     reg("C17", [h for h in PLAN["C01"] if h.name == "c01_%s_spell" % t][0])
 for op in ("add", "sub", "mul"):
     reg("C17", [h for h in PLAN["C01"] if h.name == "c01_p32_spell_%s" % op][0])
+# so are the tuple / nested-tuple / array operand forms of quire += and -= (C04's spelling harnesses: each form against the
+# sequence of single (a, b) steps, arbitrary state and operands, zero and NaR included)
+for h in PLAN["C04"]:
+    if h.name.endswith("_spellings"):
+        reg("C17", h)
 
 # ------------------------------------------------------------------ C18
 for t, T, n, uw in TYPES[:2]:
@@ -285,6 +290,7 @@ reg("C18",
 # ------------------------------------------------------------------ C13
 C13_QUICK_N = [2, 3, 4, 5, 8, 12, 16]
 C13_WIDE_SLICED = [20, 24, 28, 31, 32]
+C13_WIDE_MUL = [20, 24, 28, 31]
 for es, P, PT in ((2, "pxe2", "PxE2"), (1, "pxe1", "PxE1")):
     for N in range(2, 33):
         q = "quick" if N in C13_QUICK_N else "thorough"
@@ -292,7 +298,9 @@ for es, P, PT in ((2, "pxe2", "PxE2"), (1, "pxe1", "PxE1")):
         for op, nm in ((0, "add"), (1, "sub"), (2, "mul")):
             if N > 16 and op < 2:
                 continue
-            reg("C13", H("c13_%s_%s_%d" % (P, nm, N), "c13::%s::arith" % P, gen="%d, %d" % (N, op), unwind=34, timeout=cost, tier=q if N <= 16 else "thorough",
+            # quick also runs one wide multiplication per type, rotated over N in {20, 24, 28, 31} by VERIF_SEED
+            _mrot = (C13_WIDE_MUL.index(N), len(C13_WIDE_MUL)) if op == 2 and N in C13_WIDE_MUL else None
+            reg("C13", H("c13_%s_%s_%d" % (P, nm, N), "c13::%s::arith" % P, gen="%d, %d" % (N, op), unwind=34, timeout=cost, tier=q if N <= 16 else "thorough", rot=_mrot,
                          funcs=["%s<%d>: %s" % (PT, N, "+-*"[op])], space_bits=2 * N, bound="every pair of %d-bit patterns (low %d bits zero)" % (N, 32 - N)))
         q32 = "quick" if N == 32 else q   # N = 32 is where shift amounts reach the word size: its cheap harnesses are always in quick
         reg("C13", H("c13_%s_div_%d" % (P, N), "c13::%s::div" % P, gen=str(N), unwind=34, timeout=600, tier=q32, stubs=[LLDIV], funcs=["%s<%d>: /" % (PT, N)], space_bits=2 * N,
@@ -355,6 +363,8 @@ for es, P, PT in ((2, "pxe2", "PxE2"), (1, "pxe1", "PxE1")):
             H("c14_%s_from_p8_%d" % (P, N), "c14::%s::from_p8" % P, gen=str(N), unwind=34, timeout=300, tier=q, funcs=["%s<%d>::from_p8e0, From<P8E0>" % (PT, N)], space_bits=8, bound="every P8E0 pattern"),
             H("c14_%s_from_f64_%d" % (P, N), "c14::%s::from_f64" % P, gen=str(N), unwind=48, timeout=3600, tier="thorough", funcs=["%s<%d>::from_f64, From<f64>" % (PT, N)], space_bits=62,
               bound="every f64 with binary exponent in [-160,160], zeros, NaN, infinities (loop bound 48)"),
+            H("c14_%s_from_f64_m3_%d" % (P, N), "c14::%s::from_f64_short" % P, gen="%d, 3" % N, unwind=48, timeout=1200, tier="quick" if N in (5, 12, 20, 27, 32) else "thorough", funcs=["%s<%d>::from_f64" % (PT, N)], space_bits=13,
+              bound="every f64 with binary exponent in [-160,160] whose mantissa has <= 3 significant bits (contains every power of two and the ties 1.5*2^e)"),
             H("c14_%s_from_f32_%d" % (P, N), "c14::%s::from_f32" % P, gen=str(N), unwind=48, timeout=3600, tier="thorough", funcs=["%s<%d>::from_f32, From<f32>" % (PT, N)], space_bits=32,
               bound="every normal f32, zeros, NaN, infinities"),
             )
